@@ -19,6 +19,10 @@ mod bezier;
 mod term;
 mod vecs;
 mod vconv;
+mod spatial;
+
+/// an angle value as a list of tokens (shared by the drivers)
+pub fn xform_token(a: q::Q) -> serde_json::Value { xform::token_of(a) }
 
 fn main() {
     let args: Vec<String> = std::env::args().collect();
@@ -41,6 +45,7 @@ fn main() {
         ("drive", "bezier") => bezier::drive_bezier(rest),
         ("drive", "bezext") => bezier::drive_bezext(rest),
         ("drive", "bezlen") => bezier::drive_bezlen(rest),
+        ("drive", "spatial") => spatial::drive_spatial(rest),
         ("drive", "vconv") => vconv::drive_vconv(rest),
         ("drive", "vecops") => vecs::drive_vecops(rest),
         ("drive", "vecfold") => vecs::drive_vecfold(rest),
